@@ -64,6 +64,11 @@ CONTRACTS = {
         "+ - * / (array-array and python scalars), tensordot (fused and blockwise), @, einsum, trace, multiply_diagonal, norm; misaligned sparse operands; 4 dtypes; abelian and fermionic",
         "seeded random; dtype of every result block / scalar; exact comparison with numpy on the dense form (contractions, traces: abelian only)",
     ),
+    "C20.entry_points": (
+        "get_random_fill_fn / cls.random with scale and loc given as python float, numpy float64 / float32 scalar or 0-d value, 4 dtypes, 2 distributions (block, fused block and dense dtype); "
+        "from_dense with numpy-integer charge labels (Z2, Z2Z2; abelian and fermionic) followed by transpose, conj, fuse, to_dense, negation and -- fermionic -- conj / dagger with phase_dual, phase_flip, each followed by phase_sync / to_dense",
+        "enumerated combinations; dtype of every result block",
+    ),
     "C20.linalg": (
         "qr (plain, stabilised), svd, svd_truncated (4 absorbs, with and without truncation), eigh, solve on the C11 matrix universe incl. fused matrices; 4 dtypes; abelian and fermionic",
         "seeded random; factor dtypes (real counterpart for singular values / eigenvalues), reconstruction within 1e-9 / 1e-4",
@@ -137,6 +142,10 @@ def _gen_struct(rng, op, sym, fermionic, dtype):
         a = _arr(rng, sym, True, dtype, nd)
         a["pre_ops"] = list(a.get("pre_ops", ())) + [["phase_flip", [0]], ["phase_global"]]
         d["a"] = a
+    a = d["a"]
+    if "complex" in dtype and op in ("fuse_insert", "fuse_concat", "fuse_default", "reshape", "transpose", "conj", "to_dense", "copy_ops") and not a.get("pre_ops") and a.get("sectors") and (a["sectors"] == "all" or len(a["sectors"]) > 1) and rng.random() < 0.15:
+        # as made by  real_array + complex_array : the first stored block is real, the others complex
+        a["mixed_block_dtypes"] = True
     return d
 
 
@@ -234,6 +243,83 @@ def gen_cases(tier, seed):
     quick = tier == "quick"
     yield from _gen_block(np.random.default_rng([20, 0]), 4 if quick else 20)
     yield from _gen_block(np.random.default_rng([20, 1, seed]), 12 if quick else 400)
+    yield from _gen_entry_points(quick, seed)
+
+
+SCALARS = {"py": lambda v: float(v), "np64": lambda v: np.float64(v), "np32": lambda v: np.float32(v), "np0d": lambda v: np.asarray(v, dtype="float64")[()]}
+
+
+def _gen_entry_points(quick, seed):
+    """ways of getting data in that do not go through the harness' builder: random fills with every kind of
+    scalar for scale / loc, and from_dense with numpy-integer charge labels"""
+    rng = np.random.default_rng([20, 2, seed])
+    for dtype in ("float32", "complex64", "float64", "complex128"):
+        for sk in SCALARS:
+            for lk in (None, "py", "np64"):
+                for dist in ("normal", "uniform"):
+                    yield {"contract": "C20.entry_points", "op": "random_fill", "dtype": dtype, "scale_kind": sk, "loc_kind": lk, "dist": dist, "scale": [0.5, 1.0, 1.0 / 3.0][int(rng.integers(3))], "seed": int(rng.integers(2**31))}
+        for sym in ("Z2", "Z2Z2"):
+            for fermionic in (False, True):
+                for k in range(2 if quick else 8):
+                    yield {"contract": "C20.entry_points", "op": "numpy_integer_labels", "dtype": dtype, "sym": sym, "fermionic": fermionic, "seed": int(rng.integers(2**31)), "ndim": 2 + k % 2}
+
+
+def _check_entry(d):
+    dtype = d["dtype"]
+    feats = {"op": d["op"], "dtype": dtype, "zero_block": False}
+    fails = []
+    if d["op"] == "random_fill":
+        feats.update(scale_kind=d["scale_kind"], loc_kind=str(d["loc_kind"]))
+        kw = {"scale": SCALARS[d["scale_kind"]](d["scale"])}
+        if d["loc_kind"]:
+            kw["loc"] = SCALARS[d["loc_kind"]](0.25)
+        ix = sr.BlockIndex({0: 2, 1: 3}, dual=False)
+        fn = sr.utils.get_random_fill_fn(seed=d["seed"], dist=d["dist"], dtype=dtype, **kw)
+        b = fn((2, 3))
+        if str(b.dtype) != dtype:
+            fails.append(("C20.block_dtype", f"get_random_fill_fn(dtype={dtype}, {kw!r}) returns {b.dtype}", feats))
+        ok, x = call(sr.Z2Array.random, (ix, ix.conj()), seed=d["seed"], dtype=dtype, dist=d["dist"], **kw)
+        if not ok:
+            fails.append(("C20.no_exception", f"Z2Array.random: {x}", feats))
+        else:
+            fails += _dtype_failures(x, dtype, "random", feats, "C20.block_dtype")
+            fails += _dtype_failures(x.fuse((0, 1)), dtype, "random.fuse", feats, "C20.block_dtype")
+            dn = x.to_dense()
+            if str(dn.dtype) != dtype:
+                fails.append(("C20.block_dtype", f"to_dense of a random {dtype} array is {dn.dtype}", feats))
+        return ("entry", d["op"], dtype, d["scale_kind"], str(d["loc_kind"]), d["dist"]), fails
+    # from_dense with numpy-integer labels (np.int64 compares and hashes like int): every later operation
+    # keeps the element type, in particular the ones that apply pending signs
+    sym, fermionic, nd = d["sym"], d["fermionic"], d["ndim"]
+    feats.update(sym=sym, fermionic=fermionic)
+    rng = np.random.default_rng(d["seed"])
+    n = 4
+    if sym == "Z2":
+        labels = [np.array([0, 1, 0, 1]) for _ in range(nd)]
+        keyed = labels
+    else:
+        labels = [[(np.int64(a), np.int64(b)) for a, b in ((0, 0), (0, 1), (1, 0), (1, 1))] for _ in range(nd)]
+        keyed = labels
+    D = rng.integers(-3, 4, size=(n,) * nd).astype("float64")
+    if "complex" in dtype:
+        D = D + 1j * rng.integers(-3, 4, size=(n,) * nd)
+    D = D.astype(dtype)
+    cls = (FERMI_CLS if fermionic else ABELIAN_CLS)[sym]
+    duals = tuple(bool(i % 2) for i in range(nd))
+    ok, x = call(cls.from_dense, D, keyed, duals, invalid_sectors="ignore")
+    if not ok:
+        return ("entry", d["op"], dtype, sym, fermionic, nd), [("C20.no_exception", f"from_dense with numpy integer labels: {x}", feats)]
+    ops = [("transpose", lambda y: y.transpose(tuple(range(nd))[::-1])), ("conj", lambda y: y.conj()), ("fuse", lambda y: y.fuse(tuple(range(nd)))), ("to_dense", lambda y: y.to_dense()), ("neg", lambda y: -y)]
+    if fermionic:
+        ops += [("conj_phase_dual", lambda y: y.conj(phase_dual=True)), ("dagger_phase_dual", lambda y: y.dagger(phase_dual=True)), ("phase_flip_sync", lambda y: y.phase_flip(0).phase_sync()),
+                ("conj_phase_dual_sync", lambda y: y.conj(phase_dual=True).phase_sync()), ("conj_phase_dual_dense", lambda y: y.conj(phase_dual=True).to_dense()), ("transpose_sync", lambda y: y.transpose(tuple(range(nd))[::-1]).phase_sync())]
+    for name, f in ops:
+        ok, r = call(f, x)
+        if not ok:
+            fails.append(("C20.no_exception", f"{name}: {r}", dict(feats, step=name)))
+            continue
+        fails += _dtype_failures(r, dtype, name, dict(feats, step=name), "C20.block_dtype")
+    return ("entry", d["op"], dtype, sym, fermionic, nd), fails[:6]
 
 
 # ----------------------------------------------------------------------------
@@ -322,8 +408,10 @@ def _check_struct(d):
     feats = {"op": op, "dtype": dtype, "fermionic": bool(spec.get("fermionic")), "sym": spec["sym"], "zero_block": False}
     if op.startswith("fuse"):
         feats["forces_zero_fill"] = forces_zero_fill(spec, d["groups"])
+    mixed = bool(spec.get("mixed_block_dtypes"))
+    feats["mixed_block_dtypes"] = mixed
     x = build_array(spec)
-    pre = _input_dtype_failures(x, dtype, spec, feats)
+    pre = [] if mixed else _input_dtype_failures(x, dtype, spec, feats)
     if pre:
         return ("struct", op, spec_fp(spec), "input"), pre, x
     before = _multiset(val_blocks(x))
@@ -382,7 +470,8 @@ def _check_struct(d):
     ok, res = call(fn)
     if not ok:
         return fp, [("C20.no_exception", f"{op}: {res}", feats)], x
-    fails = _dtype_failures(res, dtype, op, feats, "C20.block_dtype")
+    # blocks of mixed element type: only "the imaginary part of complex data is never discarded" is claimed
+    fails = [] if mixed else _dtype_failures(res, dtype, op, feats, "C20.block_dtype")
     results = res if isinstance(res, tuple) else (res,)
     for r in results:
         after = _multiset(r if isinstance(r, np.ndarray) else val_blocks(r))
@@ -600,6 +689,9 @@ def check_case(d):
                 fp, fails, x = _check_struct(d)
             elif c == "C20.arithmetic":
                 fp, fails, x = _check_arith(d)
+            elif c == "C20.entry_points":
+                fp, fails = _check_entry(d)
+                return {"fingerprint": fp, "nontrivial": True, "failures": fails[:6], "sample": {"contract": c, "op": d["op"], "dtype": d["dtype"]}}
             else:
                 fp, fails, x = _check_linalg(d)
         except np.exceptions.ComplexWarning as e:
